@@ -5,7 +5,10 @@ Three workloads, each with its own counters (prefix A_/B_/C_):
 
 A  add/remove/re-add histories on graphs and functions (vfpy.world alphabet) with explicit names
    shaped like generated ones mixed with unnamed nodes/values; monitor vfpy.c15_hist.NameMonitor
-   (known-registered set R per graph, A1 reuse / A2 twice-in-one-call / A3 explicit name altered).
+   (known-registered set R per graph, A1 reuse / A2 twice-in-one-call / A3 explicit name altered / A4 equals an
+   explicit name at an earlier position of the same call).  Planned mixed-output scenarios (GenA._mixed_scenario):
+   one node (or two nodes of one sequence argument) whose outputs mix unnamed values, generated-shaped names at or
+   just above the graph's counter and plain names in a random order, added through every adding call.
 B  NameFixPass on generated models (vfpy.c15_models) with missing and duplicated names across
    GRAPH/GRAPHS scopes, captured outer values and functions, plus planted adversarial patterns;
    oracle vfpy.c15_checks.judge_namefix (B0 raised, B1 empty, B2 duplicate in graph, B3 equals a
@@ -30,15 +33,21 @@ ID = "C15"
 LEVEL = "exploration"
 RULE = ("case % 10 in 0-3: workload A, one edit history (30-100 calls: construct/append/extend/insert/remove/re-add/"
         "rename on graphs and functions) whose explicit names are dense in 'val_<k>' / 'node_<op>_<k>'; non-trivial = the "
-        "graph assigned >=3 names and >=1 already existing node was (re-)added; distinct = hash of the history. "
+        "graph assigned >=3 names and >=1 already existing node was (re-)added; distinct = hash of the history; ~4.5% of "
+        "the generator steps start a mixed-output scenario (probe the counter, 2-4 outputs mixing None / 'val_<counter+d>' / "
+        "plain names in a random order on one node or split over two nodes of one sequence argument, added by append / "
+        "extend / insert_before / insert_after / Node.prepend / Node.append / Node(graph=) / Graph(nodes=)). "
         "case % 10 in 4-7: workload B, one generated model (or a planted adversarial pattern) run through NameFixPass; "
         "non-trivial = >=1 missing or duplicated name and >=2 graphs in the model; distinct = hash of the model spec. "
         "case % 10 in 8-9: workload C, one model + one rename assignment; non-trivial = >=1 initializer renamed and the "
         "assignment is a swap/cycle/permutation or contains a conflict; distinct = hash of (model spec, assignment).")
 ASSUMPTIONS = [
     "A: R holds only names the harness saw registered in EARLIER calls (named inputs/initializers at construction, named "
-    "nodes/outputs at the moment they entered the graph) or assigned; names of one call are unordered, node and value "
-    "names are separate namespaces; equalities outside R are counted report_only",
+    "nodes/outputs at the moment they entered the graph) or assigned; node and value names are separate namespaces; "
+    "equalities outside R are counted report_only",
+    "A: within one call 'before' is the public order of the arguments: constructor inputs/initializers before nodes, "
+    "nodes in the order of the sequence argument, outputs in the order of node.outputs; an explicit name at a LATER "
+    "position (or input vs initializer) is not 'registered before' and an equality with it is report_only",
     "A: histories avoid Node(outputs=[graph input/initializer]) (C01 known finding)",
     "B: 'visible' = inputs, initializers and outputs of nodes preceding the enclosing node, in every enclosing graph; "
     "generated models are well scoped and topologically ordered; function bodies have no initializers",
@@ -66,6 +75,9 @@ def plan(tier: str) -> dict:
             "A_traps_passed_value": 300 * k,
             "A_traps_passed_node": 300 * k,
             "A_nodes_added_existing": 2500 * k,
+            "A_mixed_output_nodes_added": 300 * k,
+            "A_same_call_traps_passed_value": 150 * k,
+            "A_same_call_traps_passed_node": 30 * k,
             "B_pass_returned": 250 * k,
             "B_unique_names_checked": 4000 * k,
             "B_visible_pairs_checked": 50000 * k,
